@@ -8,7 +8,7 @@
   model output: the prologue model (`UVerif.Exc.*.prologue`) decides throw / early value / fall-through for both builds;
   where both builds fall through into the shared arithmetic the throwing build's value is predicted to be the quiet
   build's value. (A branch in which only the throwing build falls through would take the value over from the transcript;
-  since the repair of D22, commit 896b71f, the prologue models contain no such branch.)
+  since the repair of D22, commit d2b4539, the prologue models contain no such branch.)
   spec: `UVerif.Exc.specCheck` on the two observed outcomes.
 -/
 import UVerif.Driver.Core
@@ -25,7 +25,7 @@ private def stripPrefix (pre s : String) : Option String :=
 
 /-- model text of the two outcomes and the two stderr flags: `runQ` / `runT` of the prologue model on the value of the
     shared arithmetic, which is read off the transcript — from the quiet build where the quiet build reaches the shared
-    arithmetic, otherwise (a quiet-only early return; none is left in the model since fix 896b71f) from the throwing build. -/
+    arithmetic, otherwise (a quiet-only early return; none is left in the model since fix d2b4539) from the throwing build. -/
 private def modelText (p : Prologue String) (q t : Obs) : String :=
   let src := if p.qEarly.isNone && !p.qTrap then q else t
   let core := match src with
@@ -76,11 +76,9 @@ def excCase (fam : String) (cfg : List String) (op : Op) (as bs : String) : Exce
     let fl := flags.toList
     let c : CFloatSpec.Cfg := { n := n, es := es, sub := fl.getD 0 '0' == '1', sup := fl.getD 1 '0' == '1' }
     let (a, b) ← natOps
-    let cls :=
-      if CFloatSpec.divQNaNNumeratorClass c op a b then "exc.cfloat.div.qnan_numerator"
-      else ""
+    -- exc.cfloat.div.qnan_numerator was repaired in /repo (a quiet-NaN numerator propagates in both builds): no class
     return { p := hexPrologue (CFloat.prologue c op a b), errCond := CFloatSpec.err c op a b,
-             applies := CFloatSpec.kindApplies c op a b, stderrSignal := false, cls := cls }
+             applies := CFloatSpec.kindApplies c op a b, stderrSignal := false, cls := "" }
   | "fixpnt", [_ns, _rs, _mode, _bt] =>
     let (a, b) ← natOps
     return { p := hexPrologue (Fixpnt.prologue op a b), errCond := FixedSpec.err op a b,
@@ -94,9 +92,8 @@ def excCase (fam : String) (cfg : List String) (op : Op) (as bs : String) : Exce
   | "lns", [ns, _rs, _bt] =>
     let some n := parseNat ns | throw "nbits"
     let (a, b) ← natOps
-    let cls := if op == .div && LnsSpec.isNaN n a && LnsSpec.isZero n b then "exc.lns.div.nan_by_zero" else ""
     return { p := hexPrologue (Lns.prologue n op a b), errCond := LnsSpec.err n op a b,
-             applies := LnsSpec.kindApplies n op a b, stderrSignal := false, cls := cls }
+             applies := LnsSpec.kindApplies n op a b, stderrSignal := false }
   | "eint", [_bt] =>
     let (a, b) ← intOps
     return { p := Elastic.eintPrologue op a b, errCond := ElasticSpec.err op a b,
